@@ -2,30 +2,43 @@
 from vlib.core import Case
 
 ID = "C42"
-COMPONENTS = ["s_ads"]
+COMPONENTS = ["s_ads", "s_adsfan"]
 T4 = []
-PROOF_MODULES = ["GrpcProofs.Properties.C42"]
+PROOF_MODULES = ["GrpcProofs.Properties.C42", "GrpcProofs.Properties.C42Fan"]
 THEOREMS = ["GrpcProofs.C42." + t for t in (
     "emit_node", "senderGo_spec", "subscribe_requests", "existingGo_spec", "new_stream_requests", "ack_spec", "nack_spec",
-    "unknown_type_no_request", "read_sets_pending", "blocked_while_pending", "only_done_unblocks")]
+    "unknown_type_no_request", "read_sets_pending", "blocked_while_pending", "only_done_unblocks")] + [
+    "GrpcProofs.C42Fan." + t for t in (
+    "outstanding_counts_busy_watchers", "no_read_while_watcher_busy", "released_when_all_watchers_done",
+    "one_done_of_several_does_not_release")]
 DESIGN_REF = "DESIGN.md section 8, C42"
 TECHNIQUE = ("Lean 4 theorems about each request-producing function of an event->quiescence model of adsStreamImpl (all states, hence all "
              "histories); T2 correspondence: the real adsStreamImpl (runner/send/recv goroutines, flow control) under testing/synctest with "
-             "a scripted transport and channel, requests decoded from the wire")
+             "a scripted transport and channel, requests decoded from the wire; plus an invariant proof (induction over all watch/respond/done "
+             "histories) about a counting model of the fan-out of one response over the authorities sharing an xdsChannel and their watchers, "
+             "tied (T2, component s_adsfan) to the real XDSClient with 1-4 authorities on one channel and blocking watchers")
 LEVEL_TEXT = ("Machine-checked proof that, in the model of the ADS stream, every request caused by a (un)subscription carries the type's last "
               "ACKed version, its latest nonce on the current stream and the names snapshot; that a new stream resets every nonce, keeps "
               "versions and re-requests exactly the subscribed names; that an ACK carries the accepted version/nonce, a NACK the previously "
               "accepted version, the rejected nonce and an error detail; that the node identity goes with exactly the first request of a "
-              "stream; and that no response is read while the watchers' processing of the previous one is pending. The model is replayed "
+              "stream; and that no response is read while the watchers' processing of the previous one is pending - both at the stream (the "
+              "reader blocks until onDone) and across the fan-out: in every reachable state the stream's flow-control count equals the number "
+              "of response `done`s still held by watchers of ANY authority sharing the channel, so the next Recv is not entered before the last "
+              "of them returns it (and is entered once they all have). The models are replayed "
               "against the real goroutines on every run and the monitor re-derives version/nonce/NACK/names/node expectations from the "
               "implementation's own wire output.")
 LEVEL_NOTE = ("Reading (DESIGN section 7): 'lists exactly the currently subscribed names' = the names snapshot taken when the request was "
               "queued (subscribe/unsubscribe) or the current set (ACK/NACK/new stream). Trusted: Lean kernel; synctest's notion of quiescence; "
               "protobuf (un)marshalling of DiscoveryRequest/Response; the fake transport/channel of the harness. Requests emitted within one "
               "quiescence step are compared as a sorted multiset (sendExisting ranges over a Go map). Watch-expiry timers are outside this model (C43).")
-GAP = "goroutine interleavings inside one quiescence step; real gRPC transport; watch expiry timers"
+GAP = ("goroutine interleavings inside one quiescence step; real gRPC transport; watch expiry timers; in s_adsfan every response carries "
+       "fresh content, watches are never cancelled and all authorities use the one top-level server (unwatch/fallback are C43/C44)")
 ASSUMPTIONS = ["stream.Send fails only on a broken stream", "the backoff function is the constant 1s passed by the harness"]
-RULE = ("random histories (20-60 events) over two resource types + an unknown one: sub/unsub of 4 names, responses with fresh or repeated "
+RULE = ("s_adsfan: 27 directed cases (k=1..3 named authorities + top-level on one channel; the busy watcher in each authority in turn; the "
+        "other authorities have no watcher for the response / a non-blocking one / a blocking one that finishes first; further responses "
+        "queued behind; the busy watcher finishes last) + random histories of 6-30 ops (watch with blocking/non-blocking watchers, several "
+        "per resource, same names under different authorities; responses naming resources of some/all/none of the authorities; dones in any "
+        "order). s_ads: random histories (20-60 events) over two resource types + an unknown one: sub/unsub of 4 names, responses with fresh or repeated "
         "versions/nonces and verdict ack/nack/unsup, watcher-done, stream break, transport up/down, sleeps around the 1 s backoff; biased so "
         "that responses queue up behind pending flow control and streams restart with and without a received message. Non-trivial: at least "
         "3 requests incl. an ACK or NACK; distinct = distinct op list")
@@ -78,7 +91,72 @@ def directed(rng):
     yield pre + ["recv %s v2 n2 ack %s" % (t, n1), "recv %s v3 n3 nack %s" % (t, n1), "break", "done", "done", "sleep 1000"]
 
 
+FNAMES = ["x", "y", "z"]
+
+
+def fan_case(rng, ln):
+    """the fan-out of one response over several authorities that share the xdsChannel: k named authorities + the top-level
+    one, blocking and non-blocking watchers (several per resource, same names under different authorities), responses that
+    name resources of some / all / none of the authorities, `done`s in any order, responses queued behind a busy watcher."""
+    k = rng.choice([0, 1, 1, 2, 3])
+    ops = ["cfg %d" % k]
+    wid = 0
+    watchers = []   # (wid, auth, name, blocking)
+    held = {}       # wid -> number of dones it may hold (upper bound; `done` on an empty holder prints nopend on both sides)
+    for _ in range(ln):
+        r = rng.random()
+        if r < 0.30 or not watchers:
+            wid += 1
+            a, n, b = rng.randrange(0, k + 1), rng.choice(FNAMES), rng.random() < 0.6
+            ops.append("watch %d %s %d %s" % (a, n, wid, "b" if b else "n"))
+            watchers.append((wid, a, n, b))
+            held[wid] = held.get(wid, 0) + 1
+        elif r < 0.62:
+            pool = sorted({(a, n) for (_, a, n, _) in watchers})
+            extra = [(rng.randrange(0, k + 1), rng.choice(FNAMES))]
+            pick = [x for x in pool if rng.random() < 0.5] + (extra if rng.random() < 0.3 else [])
+            ops.append("respond " + (",".join("%d.%s" % x for x in sorted(set(pick))) or "-"))
+            for (w, a, n, b) in watchers:
+                if b and (a, n) in pick:
+                    held[w] = held.get(w, 0) + 1
+        else:
+            blocking = [w for (w, _, _, b) in watchers if b]
+            if blocking:
+                ops.append("done %d" % rng.choice(blocking))
+            else:
+                ops.append("respond -")
+    return ops
+
+
+def fan_directed():
+    """one authority answers at once (no watcher for the response's resources, or a non-blocking one) while a watcher of
+    another authority is still busy; then more responses; then the busy watcher finishes"""
+    for k in (1, 2, 3):
+        for busy in range(0, k + 1):
+            for other in ("none", "n", "b-done"):
+                ops = ["cfg %d" % k]
+                wid = 1
+                ops.append("watch %d x %d b" % (busy, wid))
+                for a in range(0, k + 1):
+                    if a == busy:
+                        continue
+                    wid += 1
+                    ops.append("watch %d %s %d %s" % (a, "y" if other == "none" else "x", wid, "n" if other != "b-done" else "b"))
+                allx = ",".join("%d.x" % a for a in range(0, k + 1))
+                ops.append("respond " + allx)
+                if other == "b-done":
+                    for w in range(2, wid + 1):
+                        ops.append("done %d" % w)
+                ops += ["respond " + allx, "respond -", "done 1", "done 1", "respond %d.x" % busy, "done 1"]
+                yield ops
+
+
 def gen(rng, tier):
+    for i, ops in enumerate(fan_directed()):
+        yield Case("s_adsfan", ops, "fan-directed-%d" % i)
+    nf, lf = {"quick": (150, 30), "thorough": (4000, 60), "search": (2000, 40)}[tier]
+    for i in range(nf):
+        yield Case("s_adsfan", fan_case(rng, rng.randrange(6, lf)), "fan-%d" % i)
     for k in range({"quick": 6, "thorough": 60, "search": 40}[tier]):
         for i, ops in enumerate(directed(rng)):
             yield Case("s_ads", ops + gen_case(rng, rng.randrange(0, 8)), "directed-%d-%d" % (k, i))
@@ -88,5 +166,7 @@ def gen(rng, tier):
 
 
 def nontrivial(case, impl):
+    if case.component == "s_adsfan":
+        return any("pend=" in l and "pend=-" not in l for l in impl) and any("recv=2" in l or "recv=3" in l for l in impl)
     reqs = [l for l in impl if "reqs=" in l and "reqs=-" not in l]
     return len(reqs) >= 3 and any("|v" in l for l in reqs)
